@@ -239,6 +239,12 @@ def matmul(a: IX, b: IX) -> IX:
 
 def einsum(spec: str, ops: List[IX]) -> IX:
     spec = spec.replace(" ", "")
+    if len(ops) == 2:
+        import re as _re
+        m_ = _re.fullmatch(r"\.\.\.(\w)(\w),\.\.\.(\w)(\w)->\.\.\.(\w)", spec)
+        if m_ and m_.group(1) == m_.group(3) and m_.group(2) == m_.group(4) == m_.group(5) and m_.group(1) != m_.group(2):
+            # the column-wise contraction is the elementwise product (with its broadcasting) summed over the last-but-one axis
+            return sum_axis(mul(ops[0], ops[1]), -2)
     if "->" not in spec:
         raise Unsupported("implicit einsum output")
     lhs, rhs = spec.split("->")
